@@ -27,6 +27,7 @@ def cfg_text(c, emit=False, max_steps=None):
              "  ItemLimit = %d" % c.get("limit", 64),
              "  MaxSteps = %d" % (max_steps if max_steps is not None else c["depth"]),
              "  Emit = %s" % ("TRUE" if emit else "FALSE"),
+             "  Randomised = %s" % ("TRUE" if emit else "FALSE"),
              "SPECIFICATION Spec", "INVARIANT Refines", "INVARIANT Accounting", "INVARIANT EmptyZero",
              "INVARIANT Bound", "CONSTRAINT Bounded", "CHECK_DEADLOCK FALSE"]
     if c.get("quiet_inv"):
@@ -154,8 +155,8 @@ def tlc_mc_path(spec, cfg_path, name, workers, timeout, extra=()):
 def gen_programs(pid, tier, seed, d):
     """TLC-generated behaviours of the model (simulation mode) as replayable programs."""
     c = effective(MC[pid], tier)
-    depth = 20 if tier == "quick" else 36
-    num = 60 if tier == "quick" else 400
+    depth = 24 if tier == "quick" else 40
+    num = 250 if tier == "quick" else 2500
     keep = 400 if tier == "quick" else 4000
     # a two-digit universe so that the CAS counter does not end the behaviours early
     c2 = dict(c, maxu="99")
